@@ -18,6 +18,10 @@ CHECKS = {
             "Every concrete Euclidean Distance impl (100 ordered type pairs) on every ordered pair of the lattice families, a donut family with the partner inside or touching the hole, and all representation variants; compared with the exact rational squared distance (exactly 0.0 iff the exact DE-9IM intersects), symmetry bitwise, enum == concrete.",
             "Trusted: exact kernel. Tolerance 1e-12 relative on distance^2 (largest deviation measured is reported in the evidence).",
             "DESIGN.md §4 C07"),
+    "C18": ("E2-stateright", "explicit-state BFS (stateright) over API histories executed on the real Polygon/Rect values, invariants in every state, Vec reference model stepped alongside",
+            "Every history up to the stated depth of the public mutators (exterior_mut, try_exterior_mut Ok/Err, interiors_mut, try_interiors_mut Ok/Err, interiors_push, map_coords_in_place, try_map_coords_in_place failing at every position; Rect::new/set_min/set_max incl. caught panics) from every Polygon::new over the alphabet is executed on the real value; ring closedness, Rect ordering and equality with the reference model are evaluated in every reachable state. Conversions are enumerated exhaustively on a 3x3 lattice.",
+            "Bounds: 3-coordinate alphabet, ring length <= 6, <= 2 interiors, depth 2 from all 160 initial polygons and depth 3 from every 13th (quick); one more level in thorough. States carry their depth so the parallel BFS is deterministic (state counts of two runs are compared).",
+            "DESIGN.md §4 C18"),
 }
 
 NOT_YET = "check not built yet in this round (planned: bounded exhaustive exploration, see DESIGN.md §4)"
